@@ -216,6 +216,11 @@ class Exec:
                 if real:
                     w.args = w.args[op[3]:op[4]]
                 n.args = n.args[op[3]:op[4]]
+            elif sub == 'perm':
+                if real:
+                    from TexSoup.data import TexArgs
+                    w.args = TexArgs([w.args[i] for i in op[3]])
+                n.args = [n.args[i] for i in op[3]]
             elif sub == 'arg_string':
                 if real:
                     w.args[op[3]].string = op[4]
